@@ -144,7 +144,8 @@ func c13R1(p *Prog, r *Report) {
 			}
 		}
 		site := fi.Name() + "/panic " + disc
-		key := fi.Name() + "|" + disc
+		anchor := p.anchorFor(fi, fnPartsOf(append(mapKeys(auditedPanics), mapKeys(switchExclusions)...)))
+		key := anchor + "|" + disc
 
 		// (1) default of / after a switch
 		var sw ast.Stmt
@@ -157,13 +158,17 @@ func c13R1(p *Prog, r *Report) {
 			sw = prevSwitch
 			if disc == "unguarded" || strings.HasPrefix(disc, "case") {
 				site = fi.Name() + "/panic after " + stmtKind(prevSwitch) + " " + disc
-				key = fi.Name() + "|after " + stmtKind(prevSwitch)
+				key = anchor + "|after " + stmtKind(prevSwitch)
 			}
 		}
 		if sw != nil {
-			if ifs, ok := sw.(*ast.IfStmt); ok {
-				// ZeroValue: if-chain over Info() masks of a *types.Basic
-				if ok2, how := basicInfoChainCovers(p, fi, ifs); ok2 {
+			isTagless := false
+			if s2, ok := sw.(*ast.SwitchStmt); ok && s2.Tag == nil {
+				isTagless = true
+			}
+			if _, ok := sw.(*ast.IfStmt); ok || isTagless {
+				// ZeroValue: if-chain / tagless switch over Info() masks of a *types.Basic
+				if ok2, how := basicInfoChainCovers(p, fi, sw); ok2 {
 					r.OK(site, pos, how)
 				} else {
 					r.Bad(site, pos, "panic after an if-chain that does not provably cover all cases: "+how)
@@ -177,8 +182,8 @@ func c13R1(p *Prog, r *Report) {
 			}
 			var unexcused []string
 			for _, m := range missing {
-				if why, ok := switchExclusions[fi.Name()][m]; ok {
-					r.Tables = append(r.Tables, fmt.Sprintf("C13.R1 exclusion %s/%s — %s", fi.Name(), m, why))
+				if why, ok := switchExclusions[anchor][m]; ok {
+					r.Tables = append(r.Tables, fmt.Sprintf("C13.R1 exclusion %s/%s — %s", anchor, m, why))
 				} else {
 					unexcused = append(unexcused, m)
 				}
@@ -213,7 +218,7 @@ func c13R1(p *Prog, r *Report) {
 			continue
 		}
 		// (3) builder.ToString
-		if fi.Name() == "builder.ToString" && inner != nil && !inner.Neg && isLenZeroTest(info, inner.Cond, "Path") {
+		if p.inRegion("builder.ToString", fi) && inner != nil && !inner.Neg && isLenZeroTest(info, inner.Cond, "Path") {
 			if bad := toStringCallersLift(p, fi); bad != "" {
 				r.Bad(site, pos, bad)
 			} else {
@@ -389,12 +394,9 @@ func verifyExclusionFacts(p *Prog, fi *FuncInfo, missing []string) string {
 				if !ok || f != fi.Obj || cs.Encl == nil || cs.Encl == fi {
 					continue
 				}
-				guarded := false
-				for _, g := range guardsOf(cs.Stack, cs.Call) {
-					if g.Cond != nil && !g.Neg && len(findCalls(cs.Pkg.TypesInfo, g.Cond, modPath+"/builder", "", "shouldCheckAgainstZero")) > 0 {
-						guarded = true
-					}
-				}
+				guarded := p.guardedSite(cs.Encl, cs.Stack, cs.Call, func(info *types.Info, g Guard) bool {
+					return g.Cond != nil && !g.Neg && len(findCalls(info, g.Cond, modPath+"/builder", "", "shouldCheckAgainstZero")) > 0
+				}, 2)
 				if !guarded {
 					return "call of xtype.ZeroValue at " + p.PosStr(cs.Call.Pos()) + " is not guarded by shouldCheckAgainstZero: a type parameter (or another unclassified type) can reach its panic"
 				}
@@ -406,26 +408,45 @@ func verifyExclusionFacts(p *Prog, fi *FuncInfo, missing []string) string {
 
 // basicInfoChainCovers: `if x.Info()&types.IsA != 0 {…} else if … ` chain inside a
 // *types.Basic arm: evaluate the masks for every typed basic kind.
-func basicInfoChainCovers(p *Prog, fi *FuncInfo, ifs *ast.IfStmt) (bool, string) {
+func basicInfoChainCovers(p *Prog, fi *FuncInfo, st ast.Stmt) (bool, string) {
 	info := fi.Pkg.TypesInfo
 	var masks types.BasicInfo
 	kinds := map[types.BasicKind]bool{}
-	for cur := ifs; cur != nil; {
-		if !endsInExit(cur.Body) {
-			return false, "an arm of the chain does not return"
+	// isInfoCall: e is x.Info() or a local variable defined as x.Info()
+	isInfoCall := func(e ast.Expr) bool {
+		if callTo(info, e, "go/types", "Basic", "Info") != nil {
+			return true
 		}
-		for _, d := range disjuncts(cur.Cond) {
+		if id, ok := ast.Unparen(e).(*ast.Ident); ok {
+			if def := localDef(info, fi.Decl, info.ObjectOf(id)); def != nil && callTo(info, def, "go/types", "Basic", "Info") != nil {
+				return true
+			}
+		}
+		return false
+	}
+	isKindCall := func(e ast.Expr) bool {
+		if callTo(info, e, "go/types", "Basic", "Kind") != nil {
+			return true
+		}
+		if id, ok := ast.Unparen(e).(*ast.Ident); ok {
+			if def := localDef(info, fi.Decl, info.ObjectOf(id)); def != nil && callTo(info, def, "go/types", "Basic", "Kind") != nil {
+				return true
+			}
+		}
+		return false
+	}
+	addCond := func(c ast.Expr) string {
+		for _, d := range disjuncts(c) {
 			b, ok := ast.Unparen(d).(*ast.BinaryExpr)
 			if !ok {
-				return false, "unrecognised condition " + exprString(d)
+				return "unrecognised condition " + exprString(d)
 			}
 			if b.Op == token.NEQ {
-				// x.Info()&MASK != 0
 				and, ok := ast.Unparen(b.X).(*ast.BinaryExpr)
 				if ok && and.Op == token.AND {
 					if tv, ok := info.Types[and.Y]; ok && tv.Value != nil {
 						if v, ok := constant.Int64Val(tv.Value); ok {
-							if z, ok := constInt(info, b.Y); ok && z == 0 && callTo(info, and.X, "go/types", "Basic", "Info") != nil {
+							if z, ok := constInt(info, b.Y); ok && z == 0 && isInfoCall(and.X) {
 								masks |= types.BasicInfo(v)
 								continue
 							}
@@ -433,19 +454,59 @@ func basicInfoChainCovers(p *Prog, fi *FuncInfo, ifs *ast.IfStmt) (bool, string)
 					}
 				}
 			}
-			if b.Op == token.EQL && callTo(info, b.X, "go/types", "Basic", "Kind") != nil {
+			if b.Op == token.EQL && isKindCall(b.X) {
 				if v, ok := constInt(info, b.Y); ok {
 					kinds[types.BasicKind(v)] = true
 					continue
 				}
 			}
-			return false, "unrecognised condition " + exprString(d)
+			return "unrecognised condition " + exprString(d)
 		}
-		next, _ := cur.Else.(*ast.IfStmt)
-		if cur.Else != nil && next == nil {
-			return true, "chain ends in an unconditional else"
+		return ""
+	}
+	switch x := st.(type) {
+	case *ast.IfStmt:
+		for cur := x; cur != nil; {
+			if !endsInExit(cur.Body) {
+				return false, "an arm of the chain does not return"
+			}
+			if m := addCond(cur.Cond); m != "" {
+				return false, m
+			}
+			next, _ := cur.Else.(*ast.IfStmt)
+			if cur.Else != nil && next == nil {
+				return true, "chain ends in an unconditional else"
+			}
+			cur = next
 		}
-		cur = next
+	case *ast.SwitchStmt:
+		if x.Tag != nil {
+			return false, "switch with a tag"
+		}
+		for _, c := range x.Body.List {
+			cc := c.(*ast.CaseClause)
+			if len(cc.List) == 0 {
+				if len(cc.Body) > 0 {
+					if _, isRet := cc.Body[len(cc.Body)-1].(*ast.ReturnStmt); isRet {
+						return true, "switch has a returning default"
+					}
+				}
+				continue
+			}
+			if len(cc.Body) == 0 {
+				return false, "an arm of the switch falls out of it"
+			}
+			if _, isRet := cc.Body[len(cc.Body)-1].(*ast.ReturnStmt); !isRet {
+				return false, "an arm of the switch does not return"
+			}
+			for _, e := range cc.List {
+				if m := addCond(e); m != "" {
+					return false, m
+				}
+			}
+		}
+	default:
+		return false, "unsupported statement"
 	}
 	var missing []string
 	for k := types.Bool; k <= types.UnsafePointer; k++ {
@@ -564,17 +625,28 @@ var subFacts = map[string]func(p *Prog) string{
 		}
 		info := fi.Pkg.TypesInfo
 		ok := false
-		ast.Inspect(fi.Decl, func(n ast.Node) bool {
-			cc, isCC := n.(*ast.CaseClause)
-			if isCC && len(cc.List) == 1 && mentionsField(info, cc.List[0], modPath+"/method", "ParseOpts", "ParamsMultiSource") && mentionsField(info, cc.List[0], modPath+"/method", "Parameters", "MultiSources") && len(cc.Body) > 0 {
-				if ret, isRet := cc.Body[len(cc.Body)-1].(*ast.ReturnStmt); isRet && len(ret.Results) == 2 {
-					if id, isID := ret.Results[0].(*ast.Ident); isID && id.Name == "nil" {
-						ok = true
+		test := func(e ast.Expr) bool {
+			return mentionsField(info, e, modPath+"/method", "ParseOpts", "ParamsMultiSource") && mentionsField(info, e, modPath+"/method", "Parameters", "MultiSources")
+		}
+		for _, f := range p.Region("method.Parse") {
+			f := f
+			ast.Inspect(f.Decl, func(n ast.Node) bool {
+				var cond ast.Expr
+				var body []ast.Stmt
+				switch x := n.(type) {
+				case *ast.CaseClause:
+					if len(x.List) == 1 {
+						cond, body = x.List[0], x.Body
 					}
+				case *ast.IfStmt:
+					cond, body = x.Cond, x.Body.List
 				}
-			}
-			return true
-		})
+				if cond != nil && test(cond) && clauseRejects(info, body) && helperResultRejected(p, fi, f) {
+					ok = true
+				}
+				return true
+			})
+		}
 		if !ok {
 			return "method.Parse no longer rejects additional source parameters (`!opts.ParamsMultiSource && len(MultiSources) > 0` → error)"
 		}
